@@ -131,6 +131,78 @@ def table_twins(ctx, res, c):
             c2.repeated = 7
             if table_digest(a) != d0:
                 res.violation("cell:editing-the-clone-changed-the-table", {"at": [x, y]}, witness)
+    # objects handed to a setter that stores a copy (clone=True is the default): afterwards the caller's object and
+    # the table lead separate lives
+    from odfdo import Cell as _Cell
+    from odfdo import Row as _Row
+
+    db0 = table_digest(b)
+    for _k in range(2):
+        where = rng.choice(["inside", "at-height", "beyond"])
+        y = rng.randrange(ga.H) if (where == "inside" and ga.H) else (ga.H if where != "beyond" else ga.H + rng.randint(1, 3))
+        # (extend_rows takes no clone argument and documents no copy: it is not in this list)
+        setter = rng.choice(["set_row", "set_row", "append_row", "insert_row", "set_cell", "append_cell", "insert_cell"])
+        try:
+            if setter in ("set_cell", "append_cell", "insert_cell"):
+                obj = _Cell("PUSHED", repeated=rng.choice([None, None, 2]))
+                x = rng.randint(0, ga.W + 1)
+                yy = min(y, ga.H + 1)
+                if setter == "set_cell":
+                    a.set_cell((x, yy), obj)
+                elif setter == "append_cell":
+                    a.append_cell(yy, obj)
+                else:
+                    a.insert_cell((x, yy), obj)
+            else:
+                obj = _Row()
+                obj.set_values(["PUSHED", 1, 2])
+                if rng.random() < 0.3:
+                    obj.repeated = 2
+                if setter == "set_row":
+                    a.set_row(y, obj)
+                elif setter == "append_row":
+                    a.append_row(obj)
+                else:
+                    a.insert_row(min(y, ga.H), obj)
+        except Exception:
+            break  # the operations themselves are C01's business
+        res.judge()
+        res.cls(("Pushed-object", setter, where if setter in ("set_row", "set_cell") else "-"), True)
+        d0 = table_digest(a)
+        o0 = obj.serialize()
+        try:
+            if isinstance(obj, _Row):
+                obj.set_value(1, "CALLER-EDIT")
+                obj.append_cell(_Cell("more"))
+            else:
+                obj.value = "CALLER-EDIT"
+                obj.repeated = 5
+        except Exception as e:
+            res.violation(f"pushed-object:editing-it-raised:{setter}:{type(e).__name__}", {"exc": repr(e), "where": where}, witness)
+            return
+        if table_digest(a) != d0:
+            res.violation(f"pushed-object:editing-the-caller's-object-changed-the-table:{setter}", {"where": where, "y": y}, witness)
+            return
+        # and the other way round: the table edited where the object went
+        o1 = obj.serialize()
+        try:
+            hh = a.height
+            if hh:
+                a.set_value((0, min(y, hh - 1)), "TABLE-EDIT")
+                a.set_value((1, hh - 1), "TABLE-EDIT")
+        except Exception:
+            pass
+        if obj.serialize() != o1:
+            res.violation(f"pushed-object:editing-the-table-changed-the-caller's-object:{setter}", {"where": where, "y": y}, witness)
+            return
+        # the model of twin A is resynchronised from its XML (these pushes are not part of the modelled history)
+        from ..oracles import tabxml as _tx
+
+        _w, _rows = _tx.expand(_tx.parse(a.serialize(with_ns=True)))
+        ga = TL.Grid([list(r) for r in _rows], _w)
+        if table_digest(b) != db0:
+            res.violation(f"pushed-object:pushing-into-one-twin-changed-the-other:{setter}", {}, witness)
+            return
     # copies of rows read from the table (they come with copies of its maps), given a life of their own in another table
     if ga.H:
         from odfdo import Table
@@ -431,7 +503,15 @@ def part_and_container_twins(ctx, res, c):
         loaded = rng.sample(names, rng.randint(0, min(3, len(names))))
         for n in loaded:
             cont.get_part(n)
-        pre = rng.choice(["none", "set", "del"])
+        pre = rng.choice(["none", "set", "del", "set-unread", "set-unread"])
+        if pre == "set-unread":
+            # a member replaced in memory without ever having been read from the package
+            cands = [n for n in names if n not in loaded and n != "mimetype"]
+            if cands:
+                victim = rng.choice(cands)
+                cont.set_part(victim, b"<replaced-in-memory/>" if victim.endswith(".xml") else b"replaced-in-memory")
+            else:
+                pre = "none"
         if pre == "set":
             cont.set_part("Pictures/new.bin", b"new")
             cont.set_part(names[0], cont.get_part(names[0]))
@@ -449,7 +529,11 @@ def part_and_container_twins(ctx, res, c):
             names = [n for n in cont.parts if not n.endswith("/")]
             pre = "lazy"
         else:
-            exp = {n: cont.get_part(n) for n in names}
+            # (the member replaced without having been read is not read by the harness either before the cloning)
+            unread = victim if pre == "set-unread" else None
+            exp = {n: cont.get_part(n) for n in names if n != unread}
+            if unread:
+                exp[unread] = b"<replaced-in-memory/>" if unread.endswith(".xml") else b"replaced-in-memory"
         b = cont.clone
         res.judge()
         res.cls(("Container", mode, "pre=" + pre, "birth"), True)
@@ -468,6 +552,11 @@ def part_and_container_twins(ctx, res, c):
             bad = [n for n in names if got.get(n) != exp.get(n)]
             res.violation("container:clone-differs-at-birth", {"parts": bad[:5]}, w)
             return
+        if not lazy:
+            now = {n: cont.get_part(n) for n in names}
+            if now != exp:
+                res.violation("container:cloning-changed-the-original", {"parts": [n for n in names if now.get(n) != exp.get(n)][:5]}, w)
+                return
         b.set_part("content.xml", b"<changed/>")
         b.del_part("mimetype") if False else None
         if cont.get_part("content.xml") == b"<changed/>":
